@@ -209,9 +209,21 @@ func runOne(t *testing.T, e entry, d time.Duration) {
 			}
 		}()
 	}
+	var corrupt atomic.Int64
 	mkWriter := func(ssrc uint32) interceptor.RTPWriter {
 		return ic.BindLocalStream(info(ssrc), interceptor.RTPWriterFunc(func(h *rtp.Header, p []byte, _ interceptor.Attributes) (int, error) {
 			rtpOut.Add(1)
+			// every application payload is filled with one byte value: a payload that reaches the bottom with mixed
+			// bytes was altered (or its buffer recycled) on the way.  Reading it also lets the race detector see it.
+			if h.PayloadType == 96 && len(p) > 1 {
+				for _, b := range p[1:] {
+					if b != p[0] {
+						corrupt.Add(1)
+						break
+					}
+				}
+			}
+			runtime.Gosched()
 			return len(p), nil
 		}))
 	}
@@ -240,8 +252,14 @@ func runOne(t *testing.T, e entry, d time.Duration) {
 		for g := 0; g < 2; g++ {
 			g := g
 			spawn(func(i int) {
-				h := &rtp.Header{Version: 2, SSRC: ssrc, PayloadType: 96, SequenceNumber: uint16(i*2 + g), Timestamp: uint32(i) * 3000}
-				_, _ = w.Write(h, []byte{9, 8, 7, 6, 5, 4, 3, 2, 1}, nil)
+				h := &rtp.Header{Version: 2, SSRC: ssrc, PayloadType: 96, SequenceNumber: uint16(i*2 + g), Timestamp: uint32(i) * 3000,
+					Extension: true, ExtensionProfile: 0xBEDE}
+				_ = h.SetExtension(5, []byte{byte(i >> 8), byte(i)})
+				payload := make([]byte, 40+i%200)
+				for k := range payload {
+					payload[k] = byte(i*2 + g)
+				}
+				_, _ = w.Write(h, payload, nil)
 			})
 			spawn(func(i int) {
 				buf := make([]byte, 1500)
@@ -296,6 +314,9 @@ func runOne(t *testing.T, e entry, d time.Duration) {
 		return
 	}
 	time.Sleep(10 * time.Millisecond)
+	if n := corrupt.Load(); n > 0 {
+		t.Errorf("CONSERVATION %s: %d application payloads reached the next writer altered", e.name, n)
+	}
 	if n := afterClose.Load(); n > 0 {
 		t.Errorf("WRITE-AFTER-CLOSE %s: %d RTCP writes after Close returned", e.name, n)
 	}
